@@ -41,6 +41,10 @@ type Link struct {
 	// receiver waiting for bytes that never come), the link is declared dead, as a radio link's idle timeout would.
 	StallIsCut bool
 
+	// DeadlineScale > 1 makes the link's clock run faster for deadlines: a deadline d from now is honoured after
+	// d/DeadlineScale (the code's minute-scale error-echo deadline is then waited for in sub-second real time).
+	DeadlineScale int
+
 	Obs Observer
 }
 
@@ -69,6 +73,7 @@ type End struct {
 	closed    bool
 	nClose    int
 	rdeadline time.Time
+	wdeadline time.Time
 }
 
 func NewLink(seed int64) *Link {
@@ -160,7 +165,17 @@ func (e *End) Write(p []byte) (int, error) {
 	l.cond.Broadcast()
 	if l.Sched == "sync" {
 		// a write returns only when consumed (net.Pipe semantics)
+		var timer *time.Timer
 		for len(out.buf) > 0 && !l.cut && !l.end[e.peer].closed && !l.end[e.peer].done && !e.closed {
+			if !e.wdeadline.IsZero() {
+				if !time.Now().Before(e.wdeadline) {
+					return 0, timeoutErr{}
+				}
+				if timer == nil {
+					timer = time.AfterFunc(time.Until(e.wdeadline), func() { l.mu.Lock(); l.cond.Broadcast(); l.mu.Unlock() })
+					defer timer.Stop()
+				}
+			}
 			l.cond.Wait()
 		}
 	}
@@ -280,15 +295,33 @@ func (a addr) String() string  { return string(a) }
 
 func (e *End) LocalAddr() net.Addr  { return addr(e.name) }
 func (e *End) RemoteAddr() net.Addr { return addr(e.peer) }
+func (e *End) scale(t time.Time) time.Time {
+	if t.IsZero() || e.l.DeadlineScale <= 1 {
+		return t
+	}
+	return time.Now().Add(time.Until(t) / time.Duration(e.l.DeadlineScale))
+}
 func (e *End) SetDeadline(t time.Time) error {
 	e.l.mu.Lock()
-	e.rdeadline = t
+	e.rdeadline, e.wdeadline = e.scale(t), e.scale(t)
 	e.l.cond.Broadcast()
 	e.l.mu.Unlock()
 	return nil
 }
-func (e *End) SetReadDeadline(t time.Time) error  { return e.SetDeadline(t) }
-func (e *End) SetWriteDeadline(t time.Time) error { return nil }
+func (e *End) SetReadDeadline(t time.Time) error {
+	e.l.mu.Lock()
+	e.rdeadline = e.scale(t)
+	e.l.cond.Broadcast()
+	e.l.mu.Unlock()
+	return nil
+}
+func (e *End) SetWriteDeadline(t time.Time) error {
+	e.l.mu.Lock()
+	e.wdeadline = e.scale(t)
+	e.l.cond.Broadcast()
+	e.l.mu.Unlock()
+	return nil
+}
 
 var _ net.Conn = (*End)(nil)
 var _ = errors.New
